@@ -486,3 +486,118 @@ func c03EvalWindow(w *mc.W, cas c03Window) {
 		w.Ctx().Violate(cas.Codec+"-remainder-differs-from-spec-on-a-constant-window", "window", cas, fmt.Sprintf("routine %#x, specification %#x", got, want))
 	}
 }
+
+// Case as a substitution.  Replacing a letter by its other-case form is a substitution of a character
+// too.  A uniformly upper-case spelling of a whole valid string denotes the same code word (BIP173 and
+// the CashAddr specification say so; the statement's "two different valid strings" are different code
+// words), but every MIXED spelling must be rejected - in particular the one that keeps the prefix in
+// one case and puts the whole payload into the other, which costs only as many substitutions as the
+// payload has letters.  Valid strings whose payload part has at most five (bech32: four) letters are
+// constructed (data symbols that are digits, checksum searched), and every mixed-case spelling of them
+// - every non-empty proper subset of the payload letters flipped, with the prefix in either case - is
+// given to the decoders.
+func runC03Case(c *mc.Ctx) {
+	isDigitSym := func(cs string, v int) bool { return cs[v] >= '0' && cs[v] <= '9' }
+	var digitSyms []int
+	for v := 0; v < 32; v++ {
+		if isDigitSym(ref.CashCharset, v) {
+			digitSyms = append(digitSyms, v)
+		}
+	}
+	letters := func(s string) (pos []int) {
+		for i := 0; i < len(s); i++ {
+			if s[i] >= 'a' && s[i] <= 'z' {
+				pos = append(pos, i)
+			}
+		}
+		return
+	}
+	var n atomic.Int64
+	flipAll := func(codec, prefix, sep, payload string, maxLetters int) {
+		lp := letters(payload)
+		if len(lp) == 0 || len(lp) > maxLetters {
+			return
+		}
+		for mask := 1; mask < 1<<uint(len(lp)); mask++ {
+			b := []byte(payload)
+			for k, p := range lp {
+				if mask>>uint(k)&1 == 1 {
+					b[p] -= 32
+				}
+			}
+			for _, pre := range []string{prefix, strings.ToUpper(prefix)} {
+				s := pre + sep + string(b)
+				uniform := s == strings.ToUpper(s) || s == strings.ToLower(s)
+				if uniform {
+					continue // the all-upper spelling of the whole string is the same code word
+				}
+				n.Add(1)
+				w := c.Worker()
+				w.Eval()
+				w.State()
+				ok, msg, p := c03Decode(codec, s)
+				if p {
+					c.Violate(codec+"-decoder-panics-on-corrupted-string", "foreign", c03Foreign{Codec: codec, Str: mc.Hex([]byte(s))}, msg)
+				} else if ok {
+					c.Violate(codec+"-accepts-a-mixed-case-spelling", "foreign", c03Foreign{Codec: codec, Str: mc.Hex([]byte(s)), Nearby: prefix + sep + payload},
+						fmt.Sprintf("%q is accepted; it differs from the valid string %q in %d characters of the payload part", s, prefix+sep+payload, popcount(mask)))
+				}
+				w.Done()
+			}
+		}
+	}
+	// CashAddr: 160-bit P2PKH, data symbols digits wherever the format allows
+	found := 0
+	for ctr := 0; ctr < 200000 && found < 4; ctr++ {
+		sym := make([]byte, 34)
+		x := ctr
+		for i := 2; i < 33; i++ {
+			sym[i] = byte(digitSyms[x%len(digitSyms)])
+			x /= len(digitSyms)
+			if x == 0 {
+				x = ctr + i
+			}
+		}
+		sym[33] = 20 // '5': the two padding bits are zero
+		s := ref.CashEncodeSymbols("bitcoincash", sym)
+		if len(letters(s)) <= 5 {
+			found++
+			if _, _, err := bchutil.DecodeCashAddress("bitcoincash:" + s); err != nil {
+				continue // a decoder that refuses the base makes the family vacuous for it
+			}
+			flipAll("cashaddr", "bitcoincash", ":", s, 5)
+		}
+	}
+	c.Note("mixed_case_cashaddr_bases_with_at_most_5_letters", found)
+	// bech32: hrp "a", data symbols digits, checksum searched for <= 4 letters in the whole data part
+	var bdig []int
+	for v := 0; v < 32; v++ {
+		if isDigitSym(ref.Bech32Charset, v) {
+			bdig = append(bdig, v)
+		}
+	}
+	bfound := 0
+	for ctr := 0; ctr < 200000 && bfound < 4; ctr++ {
+		d := make([]byte, 10)
+		x := ctr
+		for i := range d {
+			d[i] = byte(bdig[x%len(bdig)])
+			x = x/len(bdig) + i
+		}
+		full, _ := ref.Bech32Encode("a", d)
+		if data := full[2:]; len(letters(data)) >= 1 && len(letters(data)) <= 4 {
+			bfound++
+			flipAll("bech32", "a", "1", data, 4)
+		}
+	}
+	c.Note("mixed_case_bech32_bases_with_at_most_4_letters", bfound)
+	c.Space("mixed-case spellings of valid strings whose payload has <= 5 (4) letters: every subset of the letters flipped x prefix in either case", n.Load())
+}
+
+func popcount(m int) int {
+	n := 0
+	for ; m != 0; m &= m - 1 {
+		n++
+	}
+	return n
+}
